@@ -603,7 +603,7 @@ func C20(c *run.Check) {
 	c.Sample(map[string]interface{}{"args": []string{"-a", "-n", "-x", "//a", "g1.xml", "g2.xml"}, "files": "see rule"})
 	c.Sample(map[string]interface{}{"args": []string{"-m", "-r", "-x", "/*", "sub", "g1.xml"}})
 	c.Set("runs", len(jobs))
-	c.Rule = fmt.Sprintf("the freshly built xsel command run as a subprocess on a generated directory tree (2 good XML files with namespaces/attributes/multi-line text/comment/PI, JSON, HTML, malformed XML and JSON, HTML without doctype, .txt, extension-less, a file with % in its name and values, nested directories, a dangling symlink, a missing file, stdin) for %d argument sets x %d flag combinations (-a -m -n -r, -t none/xml/html/json, -s/-v) x %d expressions: per input the expected block is derived from the library API on the same bytes (nothing for an empty node-set; string value; -a one record per node; -m one single-line record per node whose text, parsed back by the harness, equals the selected node's subtree with expanded names; 'path: ' prefix unless -n/stdin; type detection; a diagnostic naming each bad input on stderr); stdout must be a concatenation of exactly these blocks in some order", len(argsets), len(flags), len(c20Exprs))
+	c.Rule = fmt.Sprintf("the freshly built xsel command run as a subprocess on a generated directory tree (2 good XML files with namespaces/attributes/multi-line text/comment/PI, JSON, HTML, malformed XML and JSON, HTML without doctype, .txt, extension-less, a file with %% in its name and values, nested directories, a dangling symlink, a missing file, stdin) for %d argument sets x %d flag combinations (-a -m -n -r, -t none/xml/html/json, -s/-v) x %d expressions: per input the expected block is derived from the library API on the same bytes (nothing for an empty node-set; string value; -a one record per node; -m one single-line record per node whose text, parsed back by the harness, equals the selected node's subtree with expanded names; 'path: ' prefix unless -n/stdin; type detection; a diagnostic naming each bad input on stderr); stdout must be a concatenation of exactly these blocks in some order", len(argsets), len(flags), len(c20Exprs))
 	c.Assume("the statement fixes no order of files, so blocks are matched as a multiset; attribute and namespace nodes under -m are only required to yield one line carrying their name and value")
 }
 
